@@ -24,7 +24,7 @@ func init() {
 			"the strict receiver parses with XML attribute-value normalisation, verifies with goxmldsig against the reported and published certificate, and checks Reference target, declared methods, embedded certificate and position right after Issuer; distinct = shape hash (key config, algorithm, canonicaliser, kind, phase, string classes, outcome)",
 		Directed:   c13Directed,
 		Run:        c13Run,
-		MustHit:    []string{"enc=setter", "sig=field", "sig=setter", "sig=none", "ec_signer", "alg_configured", "canon_configured", "kind=AuthnRequest", "kind=LogoutRequest", "kind=LogoutResponse", "phase=cached", "phase=restart", "hostile_strings", "value_with_CR"},
+		MustHit:    []string{"enc=setter", "sig=field", "sig=setter", "sig=none", "ec_signer", "alg_configured", "canon_configured", "kind=AuthnRequest", "kind=LogoutRequest", "kind=LogoutResponse", "phase=cached", "phase=restart", "hostile_strings", "value_with_CR", "sign_requests_off"},
 		RandomRuns: map[string]int{"quick": 6000, "thorough": 50000},
 		Assumptions: []string{"ECDSA signatures are verified with the same goxmldsig verifier the library's users would use; their octet encoding versus other XML-DSig stacks is a dependency matter",
 			"only algorithm / key-type combinations the signing library supports are configured"},
@@ -58,6 +58,18 @@ func c13Run(r *core.Run) {
 	}
 	kind := outKinds[t.Int(3, "c13.kind")]
 	phase := []string{"first-use", "cached", "restart"}[t.Int(3, "c13.phase")]
+	if t.Int(3, "c13.signrequests") == 1 {
+		// request signing switched off: AuthnRequests go out unsigned, logout messages are still
+		// signed and must still honour the configured algorithm and canonicaliser
+		o.Cfg.SignRequests = false
+		if !o.Build() {
+			return
+		}
+		if kind == "AuthnRequest" {
+			kind = outKinds[1+t.Int(2, "c13.logoutkind")]
+		}
+		r.Probe("sign_requests_off")
+	}
 	r.Probe("enc=" + o.EncStyle.String())
 	r.Probe("sig=" + o.SigStyle.String())
 	r.Probe("kind=" + kind)
